@@ -1,12 +1,92 @@
-"""Driver: python -m yv.run C03 [--tier quick|thorough] [--replay file]"""
+"""Driver: python -m yv.run C03 [--tier quick|thorough] [--replay file] [--jobs N]
+
+With --jobs N > 1 the check is split into N shards (cells are partitioned by a hash of their key), run as parallel
+subprocesses and the shard evidences are merged into evidence/<ID>.json; the exit code is 1 if any shard found a
+violation, else 2 if any shard was inconclusive, else 0.
+"""
 import argparse
 import faulthandler
 import importlib
+import json
 import os
+import subprocess
 import sys
+import tempfile
+import time
 
 os.environ.setdefault("NUMBA_DISABLE_JIT", "1")
 faulthandler.enable()
+
+DEFAULT_JOBS = {"quick": {"C07": 4, "C20": 4, "C12": 2, "C13": 2, "C16": 2}, "thorough": 8}
+
+
+def merge(dst, src):
+    """merge two coverage-like dicts: numbers add, lists concatenate (bounded), dicts recurse, strings keep the first"""
+    for k, v in src.items():
+        if k not in dst:
+            dst[k] = v
+        elif isinstance(v, bool) or isinstance(dst[k], bool):
+            dst[k] = bool(dst[k]) and bool(v) if k == "exhaustive" else (dst[k] or v)
+        elif isinstance(v, (int, float)) and isinstance(dst[k], (int, float)):
+            dst[k] = dst[k] + v
+        elif isinstance(v, list) and isinstance(dst[k], list):
+            dst[k] = (dst[k] + [x for x in v if x not in dst[k]])[:40]
+        elif isinstance(v, dict) and isinstance(dst[k], dict):
+            merge(dst[k], v)
+    return dst
+
+
+def run_sharded(pid, tier, jobs, only):
+    verif = os.path.dirname(os.path.dirname(os.path.abspath(__file__)))
+    evdir = os.environ.get("VERIF_EVIDENCE_DIR") or os.path.join(verif, "evidence")
+    t0 = time.time()
+    procs = []
+    tmp = tempfile.mkdtemp(prefix=f"yv_{pid}_", dir="/var/tmp")
+    for i in range(jobs):
+        env = dict(os.environ, VERIF_SHARD=f"{i}/{jobs}", VERIF_EVIDENCE_DIR=os.path.join(tmp, f"s{i}"), VERIF_TIER=tier)
+        cmd = [sys.executable, "-m", "yv.run", pid, "--tier", tier, "--jobs", "1"] + (["--only", only] if only else [])
+        procs.append(subprocess.Popen(cmd, env=env, stdout=subprocess.PIPE, stderr=subprocess.STDOUT, text=True, cwd=verif))
+    codes, evs = [], []
+    for i, p in enumerate(procs):
+        out, _ = p.communicate()
+        codes.append(p.returncode)
+        lines = out.splitlines()
+        for ln in lines:
+            if ln.startswith(f"[{pid}]"):
+                continue
+            print(ln, flush=True)
+        try:
+            evs.append(json.load(open(os.path.join(tmp, f"s{i}", f"{pid}.json"))))
+        except Exception:  # noqa
+            pass
+    import shutil
+
+    shutil.rmtree(tmp, ignore_errors=True)
+    if not evs:
+        print(f"HARNESS-ERROR property={pid} (no shard wrote evidence; exit codes {codes})")
+        return 2
+    ev = evs[0]
+    for other in evs[1:]:
+        merge(ev["coverage"], other["coverage"])
+        ev["violations"] = ev.get("violations", 0) + other.get("violations", 0)
+        for a in other.get("assumptions", []):
+            if a not in ev["assumptions"]:
+                ev["assumptions"].append(a)
+    ev["coverage"]["samples"] = ev["coverage"].get("samples", [])[:10]
+    ev["coverage"]["shards"] = {"n": jobs, "exit_codes": codes, "rule": "cells partitioned by crc32(key) % n; one-off parts in shard 0"}
+    ev["wall_s"] = round(time.time() - t0, 2)
+    os.makedirs(evdir, exist_ok=True)
+    with open(os.path.join(evdir, f"{pid}.json"), "w") as f:
+        json.dump(ev, f, indent=1, default=str)
+    c = ev["coverage"]
+    print(f"[{pid}] tier={tier} shards={jobs} obligations={c.get('obligations')} discharged={c.get('discharged')} paths={c.get('paths')} "
+          f"queries={c.get('solver', {}).get('queries')}+{c.get('path_exploration', {}).get('feasibility_queries')} wall_s={ev['wall_s']} "
+          f"violations={ev['violations']} inconclusive={len(c.get('inconclusive', []))}", flush=True)
+    if any(x == 1 for x in codes):
+        return 1
+    if any(x != 0 for x in codes):
+        return 2
+    return 0
 
 
 def main():
@@ -15,15 +95,26 @@ def main():
     ap.add_argument("--tier", default=os.environ.get("VERIF_TIER", "quick"))
     ap.add_argument("--replay", default=None)
     ap.add_argument("--only", default=None, help="developer aid: run only sections matching this")
+    ap.add_argument("--jobs", type=int, default=None)
     a = ap.parse_args()
     tier = a.tier if a.tier in ("quick", "thorough") else "quick"
     seed = int(os.environ.get("VERIF_SEED", "0") or 0)
-    mod = importlib.import_module(f"yv.props.{a.pid.lower()}")
+    pid = a.pid.upper()
+    mod = importlib.import_module(f"yv.props.{pid.lower()}")
     from yv.engine import harness
 
     if a.replay:
         sys.exit(harness.run_replay(a.replay, mod.REPLAYERS))
-    chk = harness.Check(a.pid.upper(), tier, seed, getattr(mod, "REPLAYERS", {}))
+    jobs = a.jobs
+    if jobs is None and "VERIF_SHARD" not in os.environ:
+        d = DEFAULT_JOBS[tier]
+        jobs = d if isinstance(d, int) else d.get(pid, 1)
+        if not getattr(mod, "SHARDABLE", False):
+            jobs = 1
+        jobs = max(1, min(jobs, (os.cpu_count() or 2) // 2))
+    if jobs and jobs > 1:
+        sys.exit(run_sharded(pid, tier, jobs, a.only))
+    chk = harness.Check(pid, tier, seed, getattr(mod, "REPLAYERS", {}))
     try:
         code = mod.run(chk, only=a.only)
     except harness.StopEarly as e:
